@@ -4,7 +4,7 @@
    Specification: spec/AccessSpec.v ([Readable] / [Writable], written from the property text).
    A store is acyclic when some rank decreases along every reference; the fuel F exceeds every rank.
    [iv s F st m] / [bv s F st m] are the current values of node m (number / boolean) in state st. *)
-From Cam Require Import Outcome Access AccessSpec P_C18.
+From Cam Require Import Outcome Access AccessSpec P_C18 P_C18b.
 Local Open Scope nat_scope.
 
 (* reported readable exactly when implemented, available, the imposed and register access modes
@@ -37,6 +37,67 @@ Theorem C18_spec_sanity : forall s ival bval n nd, nth_error s n = Some nd ->
   (Readable s ival bval n -> RegisterKind (nkind nd) -> regmode nd <> WO).
 Proof. exact spec_sanity. Qed.
 Print Assumptions C18_spec_sanity.
+
+(* The total characterisation ("readable exactly when"): on a node n that is [Evaluable] — every
+   node reachable from n through references has a kind offering the query, its pIsImplemented /
+   pIsAvailable / pIsLocked nodes are Boolean or integer features that evaluate, its pIndex index is
+   an integer feature that evaluates, and every reference has a kind that can stand there — the
+   answer is Ok b with b = true exactly when the specification holds.  (A Command has no
+   is_readable; every other kind with a query has both.) *)
+Theorem C18_readable_exactly : forall s rank F st n, Acyclic s rank -> (forall m, rank m < F) ->
+  Evaluable s (iv s F st) (bv s F st) n -> kind_of s n <> KCommand ->
+  exists b, is_readable fixed_cfg s F st n = Ok b /\ (b = true <-> Readable s (iv s F st) (bv s F st) n).
+Proof. exact readable_exactly. Qed.
+Print Assumptions C18_readable_exactly.
+
+Theorem C18_readable_false_iff : forall s rank F st n, Acyclic s rank -> (forall m, rank m < F) ->
+  Evaluable s (iv s F st) (bv s F st) n -> kind_of s n <> KCommand ->
+  (is_readable fixed_cfg s F st n = Ok false <-> ~ Readable s (iv s F st) (bv s F st) n).
+Proof. exact readable_false_iff. Qed.
+Print Assumptions C18_readable_false_iff.
+
+Theorem C18_writable_exactly : forall s rank F st n, Acyclic s rank -> (forall m, rank m < F) ->
+  Evaluable s (iv s F st) (bv s F st) n ->
+  exists b, is_writable fixed_cfg s F st n = Ok b /\ (b = true <-> Writable s (iv s F st) (bv s F st) n).
+Proof. exact writable_exactly. Qed.
+Print Assumptions C18_writable_exactly.
+
+Theorem C18_writable_false_iff : forall s rank F st n, Acyclic s rank -> (forall m, rank m < F) ->
+  Evaluable s (iv s F st) (bv s F st) n ->
+  (is_writable fixed_cfg s F st n = Ok false <-> ~ Writable s (iv s F st) (bv s F st) n).
+Proof. exact writable_false_iff. Qed.
+Print Assumptions C18_writable_false_iff.
+
+(* with the local hypothesis the global LocksDecided of C18_writable_iff is not needed *)
+Theorem C18_writable_iff_evaluable : forall s rank F st n, Acyclic s rank -> (forall m, rank m < F) ->
+  Evaluable s (iv s F st) (bv s F st) n ->
+  (is_writable fixed_cfg s F st n = Ok true <-> Writable s (iv s F st) (bv s F st) n).
+Proof. exact writable_iff_evaluable. Qed.
+Print Assumptions C18_writable_iff_evaluable.
+
+(* no query fails on an evaluable node, for the pinned code as well *)
+Theorem C18_queries_total : forall c s rank F st n, Acyclic s rank -> (forall m, rank m < F) ->
+  Evaluable s (iv s F st) (bv s F st) n ->
+  (exists b, is_writable c s F st n = Ok b) /\
+  (kind_of s n <> KCommand -> exists b, is_readable c s F st n = Ok b).
+Proof. exact queries_total. Qed.
+Print Assumptions C18_queries_total.
+
+(* real stores satisfy the hypotheses: a six-node store (register, Boolean, locked Integer over the
+   register, SwissKnife, pIndex Integer, Command) is acyclic and evaluable in a state where the lock
+   is on; the answers are Ok(true) / Ok(false) as listed, N4 is not Writable, and N2 becomes
+   Writable when the Boolean's slot is set to off *)
+Theorem C18_evaluable_example :
+  Acyclic ev_store (fun n => Nat.min n 6) /\ (forall m, Nat.min m 6 < 7) /\
+  (forall n, n < 6 -> Evaluable ev_store (iv ev_store 7 st1) (bv ev_store 7 st1) n) /\
+  map (fun n => is_writable fixed_cfg ev_store 7 st1 n) [0; 1; 2; 3; 4; 5]
+    = [Ok true; Ok true; Ok false; Ok false; Ok false; Ok false] /\
+  map (fun n => is_readable fixed_cfg ev_store 7 st1 n) [0; 1; 2; 3; 4]
+    = [Ok true; Ok true; Ok true; Ok true; Ok true] /\
+  ~ Writable ev_store (iv ev_store 7 st1) (bv ev_store 7 st1) 4 /\
+  Writable ev_store (iv ev_store 7 (upd st1 1 0 (Ok 0%Z))) (bv ev_store 7 (upd st1 1 0 (Ok 0%Z))) 2.
+Proof. exact evaluable_example. Qed.
+Print Assumptions C18_evaluable_example.
 
 (* the corollaries hold for the pinned code as well (any configuration c) *)
 Theorem C18_locked_not_writable : forall c s rank F st n nd l, Acyclic s rank -> (forall m, rank m < F) ->
